@@ -495,8 +495,63 @@ func setString(s []int64) string {
 	return fmt.Sprintf("%d values from %d to %d", len(s), s[0], s[len(s)-1])
 }
 
-func cd3Threshold(p *core.Prog, rep *core.Report) (blockSize, header int64) {
-	rep.Rule("CD3", "pad/skip threshold: the writer's 'pad the block tail' predicate and the sequential reader's 'skip to the next block' predicate, extracted as closed comparisons over the bytes used in the block and folded constants, have the same truth set over the whole domain [0, blockSize) (evaluated exhaustively; constant folding of an extracted formula, not execution)")
+// blockSizeConst: the multiplier (*DataFile).Size applies to the block counter.
+func blockSizeConst(p *core.Prog) int64 {
+	sz := p.MustMethod(p.R.DataFile, "Size")
+	for _, b := range sz.Blocks {
+		for _, in := range b.Instrs {
+			if bo, ok := in.(*ssa.BinOp); ok && bo.Op == token.MUL {
+				for _, side := range []ssa.Value{bo.X, bo.Y} {
+					if k, ok := constInt(side); ok && k > 1 {
+						return k
+					}
+				}
+			}
+		}
+	}
+	core.Failf("role unresolved: block size (multiplier in (*DataFile).Size)")
+	return 0
+}
+
+// tailPredicates: Ifs of fn whose condition is a closed comparison over one free variable and constants and whose
+// truth set over [0, blockSize) is a small, non-empty set of positions at the end of the block - "fewer than a
+// header's worth of bytes left". Nested single-variable conjuncts on the taken side are folded in by truthSet.
+func tailPredicates(fn *ssa.Function, blockSize, header int64) (out []*ssa.If, sets [][]int64) {
+	for _, b := range fn.Blocks {
+		iff, ok := b.Instrs[len(b.Instrs)-1].(*ssa.If)
+		if !ok {
+			continue
+		}
+		bo, ok := iff.Cond.(*ssa.BinOp)
+		if !ok {
+			continue
+		}
+		switch bo.Op {
+		case token.LSS, token.LEQ, token.GTR, token.GEQ:
+		default:
+			continue
+		}
+		fx, fy := freeVar(bo.X), freeVar(bo.Y)
+		if (fx == nil) == (fy == nil) {
+			continue // need exactly one side with a variable
+		}
+		set, _, ok := truthSet(iff, blockSize)
+		if !ok || len(set) == 0 || int64(len(set)) > 4*header {
+			continue
+		}
+		// also accept the complement form (the 'enough room' branch is the taken one)
+		if set[0] < blockSize-4*header {
+			continue
+		}
+		out = append(out, iff)
+		sets = append(sets, set)
+	}
+	return
+}
+
+func cd3Threshold(p *core.Prog, rep *core.Report, header int64) (blockSize, hdr int64) {
+	rep.Rule("CD3", "pad/skip threshold: the writer's 'pad the block tail' predicate and the sequential reader's 'skip to the next block' predicate - found as the closed single-variable comparisons whose truth set is a small set of positions at the end of a block, whatever their arithmetic form - have the same truth set over the whole domain [0, blockSize) (evaluated exhaustively; constant folding of an extracted formula, not execution), and that set has exactly header-size elements")
+	blockSize = blockSizeConst(p)
 	w := chunkWriter(p)
 	var seq *ssa.Function
 	for _, fn := range chunkReaders(p) {
@@ -507,35 +562,22 @@ func cd3Threshold(p *core.Prog, rep *core.Report) (blockSize, header int64) {
 	if seq == nil {
 		core.Failf("role unresolved: sequential chunk reader")
 	}
-	wi, ri := thresholdIfs(w), thresholdIfs(seq)
+	// the pad test may live in the chunk writer or in a helper it is called with (same package)
+	var wi []*ssa.If
+	var wsets [][]int64
+	for _, fn := range p.LibFuncs() {
+		if fn.Package() == nil || fn.Package().Pkg.Path() != core.ModPath+"/datafile" || core.RecvNamed(fn) != p.R.DataFile {
+			continue
+		}
+		is, ss := tailPredicates(fn, blockSize, header)
+		wi, wsets = append(wi, is...), append(wsets, ss...)
+	}
+	ri, rsets := tailPredicates(seq, blockSize, header)
 	if len(wi) == 0 || len(ri) == 0 {
-		rep.Unk("CD3", "pad-skip-threshold", "writer and reader thresholds extracted", p.Pos(w.Pos()), fmt.Sprintf("threshold tests found: writer %d, reader %d - predicate does not fit the grammar", len(wi), len(ri)))
-		return 0, 0
-	}
-	// block size: the largest constant compared against; header: the addend
-	bo := wi[0].Cond.(*ssa.BinOp)
-	for _, side := range []ssa.Value{bo.X, bo.Y} {
-		if k, ok := constInt(side); ok {
-			blockSize = k
-		}
-		if inner, ok := side.(*ssa.BinOp); ok {
-			if k, ok := constInt(inner.Y); ok {
-				header = k
-			} else if k, ok := constInt(inner.X); ok {
-				header = k
-			}
-		}
-	}
-	if blockSize <= 0 || blockSize > 1<<22 {
-		rep.Unk("CD3", "pad-skip-threshold", "block size constant extracted", p.Pos(w.Pos()), fmt.Sprintf("implausible block size %d", blockSize))
-		return 0, 0
-	}
-	ws, _, ok1 := truthSet(wi[0], blockSize)
-	rs, _, ok2 := truthSet(ri[0], blockSize)
-	if !ok1 || !ok2 {
-		rep.Unk("CD3", "pad-skip-threshold", "predicates evaluated", p.Pos(w.Pos()), "a predicate does not fit the grammar (+ - comparisons over one variable and constants)")
+		rep.Unk("CD3", "pad-skip-threshold", "writer and reader thresholds extracted", p.Pos(w.Pos()), fmt.Sprintf("tail predicates found: writer %d, reader %d - no closed single-variable comparison selects the end of a block", len(wi), len(ri)))
 		return blockSize, header
 	}
+	ws, rs := wsets[0], rsets[0]
 	same := len(ws) == len(rs)
 	if same {
 		for i := range ws {
@@ -546,7 +588,6 @@ func cd3Threshold(p *core.Prog, rep *core.Report) (blockSize, header int64) {
 	}
 	rep.Check(same, "CD3", "pad-skip-threshold", fmt.Sprintf("writer pads iff used in %s; reader skips iff offset in %s (domain [0,%d))", setString(ws), setString(rs), blockSize), p.InstrPos(wi[0]),
 		fmt.Sprintf("truth sets differ: writer %s at %s, reader %s at %s - a record that ends where only one side crosses the threshold is unreadable", setString(ws), p.InstrPos(wi[0]), setString(rs), p.InstrPos(ri[0])), true)
-	// the padded tail is exactly the bytes that cannot hold a header: |set| == header
 	rep.Check(int64(len(ws)) == header, "CD3", "pad-width", fmt.Sprintf("the padded tails are exactly the %d positions that cannot hold a chunk header plus one payload byte", header), p.InstrPos(wi[0]), fmt.Sprintf("pad set has %d elements, header size is %d", len(ws), header), true)
 	return blockSize, header
 }
@@ -752,4 +793,72 @@ func chunkTypeProtocol(p *core.Prog, rep *core.Report) {
 		}
 	}
 	rep.Check(same, "CT", "readers-agree-on-terminal-types", "both readers end a record on the same chunk types "+strings.Join(sets, " / "), "", "terminal chunk-type sets differ between the readers: "+strings.Join(sets, " vs "), true)
+}
+
+// cd3bPadPerRecord: the pad test is evaluated for EVERY record position the writer assigns (also for the 2nd..nth
+// record of a batch flush). States: U pad test not evaluated since the last position, P evaluated.
+func cd3bPadPerRecord(p *core.Prog, rep *core.Report, blockSize, header int64) {
+	rep.Rule("CD3b", "pad test per record: on every path of every writing DataFile method, each position assignment (allocation of the DataPos handed back to the caller) is preceded by an evaluation of the block-tail predicate since the previous position assignment - a batch flush pads before each of its records, not once")
+	isTail := map[*ssa.If]bool{}
+	for _, fn := range p.LibFuncs() {
+		if core.RecvNamed(fn) != p.R.DataFile {
+			continue
+		}
+		is, _ := tailPredicates(fn, blockSize, header)
+		for _, i := range is {
+			isTail[i] = true
+		}
+	}
+	n := 0
+	for _, fn := range p.LibFuncs() {
+		if core.RecvNamed(fn) != p.R.DataFile {
+			continue
+		}
+		writes := false
+		for _, b := range fn.Blocks {
+			for _, in := range b.Instrs {
+				if ci, ok := in.(ssa.CallInstruction); ok && isWritePrimitive(p, ci.Common()) {
+					writes = true
+				}
+			}
+		}
+		if !writes {
+			continue
+		}
+		var bad []string
+		allocs := 0
+		eng := core.NewEngine(p, core.Hooks{
+			Name:   "CD3b",
+			Follow: func(f *ssa.Function) bool { return core.RecvNamed(f) == p.R.DataFile },
+			Edge: func(x *core.Exec, iff *ssa.If, taken bool, a core.AState) (core.AState, bool) {
+				if isTail[iff] {
+					return "P", true
+				}
+				return a, true
+			},
+			Step: func(x *core.Exec, in ssa.Instruction, a core.AState) ([]core.StepOut, bool) {
+				if al, ok := in.(*ssa.Alloc); ok {
+					if pt, ok := al.Type().(*types.Pointer); ok {
+						if nn, ok := pt.Elem().(*types.Named); ok && nn == p.R.DataPos {
+							allocs++
+							if a != "P" {
+								bad = append(bad, fmt.Sprintf("position assigned at %s (in %s) without evaluating the block-tail predicate since the previous record: a record that starts in a tail too short for a header is written straddling the block boundary", p.InstrPos(in), core.FuncKey(x.Fn)))
+							}
+							return []core.StepOut{{A: "U"}}, true
+						}
+					}
+				}
+				return nil, false
+			},
+		})
+		eng.Run(fn, "U", "")
+		if allocs == 0 {
+			continue
+		}
+		n++
+		rep.Check(len(bad) == 0, "CD3b", "pad-per-record:"+core.FuncKey(fn), "the block-tail predicate is evaluated before every position assignment", p.Pos(fn.Pos()), strings.Join(sortedStr(bad), "; "), true)
+	}
+	if n < 2 {
+		core.Failf("vacuity guard: CD3b expected >= 2 writing DataFile methods that assign positions, found %d", n)
+	}
 }
